@@ -19,12 +19,12 @@ STATS = ["np.mean", "np.median", "np.max", "range", "second_smallest", "first", 
 
 @st.composite
 def inner_spec(draw, inner, n=None):
-    if inner == "FixedChangeDetector":
+    if inner in ("FixedChangeDetector", "IndexLabelChangeDetector"):
         if n is None:
             n = draw(st.integers(2, 40))
         k = draw(st.integers(0, min(6, n - 1)))
         cpts = sorted(draw(st.lists(st.integers(1, n - 1), min_size=k, max_size=k, unique=True)))
-        return {"cls": "FixedChangeDetector", "changepoints": cpts}, n
+        return {"cls": inner, "changepoints": cpts}, n
     ip, n_min = draw(K.detector_params(inner, 1, max_msl=3, max_bw=4, allow_cov=False))
     return dict(cls=inner, **ip), n_min
 
@@ -32,13 +32,15 @@ def inner_spec(draw, inner, n=None):
 @st.composite
 def cases(draw, tier):
     # all structural choices first, the bulk data last (see strategies/data.py)
-    inner = draw(st.sampled_from(["FixedChangeDetector", "FixedChangeDetector", "PELT", "MovingWindow", "SeededBinarySegmentation"]))
+    inner = draw(st.sampled_from(["FixedChangeDetector", "IndexLabelChangeDetector", "PELT", "MovingWindow", "SeededBinarySegmentation"]))
+    fixed = inner in ("FixedChangeDetector", "IndexLabelChangeDetector")
     ispec, n = draw(inner_spec(inner))
-    if inner != "FixedChangeDetector":
+    if not fixed:
         n = draw(st.integers(n, max(n, 40)))
     stat = draw(st.sampled_from(STATS))
     lo_sel = (draw(st.booleans()), draw(st.integers(0, 8)), draw(st.floats(-15, 15, allow_nan=False)))
     hi_sel = (draw(st.booleans()), draw(st.integers(0, 8)), draw(st.floats(0, 20, allow_nan=False)))
+    one_sided = draw(st.sampled_from([None, None, None, "no_lower_bound", "no_upper_bound", "unbounded"]))  # -inf / +inf bounds
     container = draw(st.sampled_from(["DataFrame", "Series", "ndarray1d", "ndarray2d"]))
     index = draw(D.index_spec())
     npre = draw(st.integers(max(n, 8), 40)) if draw(st.integers(0, 3)) == 0 else None
@@ -46,8 +48,8 @@ def cases(draw, tier):
     second = draw(st.sampled_from([None, "set_params_refit", "refill_predict", "refill_refit", None]))
     ispec2 = None
     if second == "set_params_refit":
-        ispec2, n2_min = draw(inner_spec(inner, n if inner == "FixedChangeDetector" else None))
-        if inner != "FixedChangeDetector" and n2_min > n:
+        ispec2, n2_min = draw(inner_spec(inner, n if fixed else None))
+        if not fixed and n2_min > n:
             second, ispec2 = None, None
     X, _ = draw(D.structured_matrix(n, 1, max_shifts=4, max_spikes=1, max_bumps=1))
     x = [row[0] for row in X]
@@ -60,6 +62,12 @@ def cases(draw, tier):
     lo = pool[lo_sel[1] % len(pool)] if lo_sel[0] else lo_sel[2]
     above = [v for v in pool if v >= lo] or [lo]
     hi = above[hi_sel[1] % len(above)] if hi_sel[0] else lo + hi_sel[2]
+    if one_sided in ("no_lower_bound", "unbounded"):
+        lo = "-inf"  # written as text: JSON has no infinity
+    if one_sided in ("no_upper_bound", "unbounded"):
+        hi = "inf"
+    if inner == "IndexLabelChangeDetector" and index["kind"] in D.REPEAT_INDEX_KINDS:
+        index = {"kind": "datetime_h", "start": index["start"]}  # labels are looked up: they must be unique
     prefit = None
     if npre is not None:
         # the user may pass a detector that is already fitted (on other data): a clone must still be
@@ -89,6 +97,7 @@ def check(case):
 
     x = np.asarray(case["x"], dtype=float)
     n = len(x)
+    lo, hi = float(case["lo"]), float(case["hi"])
     stat = K.CALLABLES[case["stat"]]
     Xc = to_container(case["x"], case["container"], case["index"])
     user_det = K.build(case["inner"])
@@ -103,7 +112,7 @@ def check(case):
             user_det = K.build(case["inner"])
     params_before = repr(sorted(user_det.get_params(deep=True).items(), key=lambda kv: kv[0]))
     with sut("StatThresholdAnomaliser.fit/predict"):
-        det = StatThresholdAnomaliser(user_det, stat, case["lo"], case["hi"]).fit(Xc)
+        det = StatThresholdAnomaliser(user_det, stat, lo, hi).fit(Xc)
         y = det.predict(Xc)
     # the user's detector object is neither fitted nor altered
     if prefit is None:
@@ -129,9 +138,9 @@ def check(case):
         want, near = [], False
         for a, b in zip(bounds[:-1], bounds[1:]):
             v = float(stat(np.asarray(test, dtype=float)[a:b]))
-            if v < case["lo"] or v > case["hi"]:
+            if v < lo or v > hi:
                 want.append((a, b))
-            if v in (case["lo"], case["hi"]):
+            if v in (lo, hi):
                 near = True
         return want, near, cpts, bounds
 
@@ -174,6 +183,8 @@ def check(case):
         classes.append("mixed_flagged_and_normal")
     if near_boundary:
         classes.append("statistic_equals_a_bound")
+    if np.isinf(lo) or np.isinf(hi):
+        classes.append("infinite_bound")
     if second:
         classes.append(f"second={second}")
     return {"nontrivial": bool(want), "classes": classes}
